@@ -72,6 +72,7 @@ fn main() {
     "c19" => props::c19::run(&cfg),
     "c06" => props::c06::run(&cfg),
     "c13" => props::c13::run(&cfg),
+    "c20" => props::c20::run(&cfg),
     _ => {
       eprintln!("unknown property {}", prop);
       std::process::exit(2);
